@@ -9,7 +9,7 @@ WT=$(realpath "$1"); TIER=$2; shift 2
 NAME=$(basename "$WT")
 MH=/tmp/mh-$NAME
 mkdir -p $MH/out/evidence $MH/out/replays
-rsync -a --delete --exclude target /verif/harness/ $MH/harness/
+rsync -a --delete --exclude target ${HARNESS_SRC:-/verif/harness}/ $MH/harness/
 sed -i "s#/repo/crates/typstyle-core#$WT/crates/typstyle-core#" $MH/harness/tyv-run/Cargo.toml
 printf '[net]\noffline = true\n[build]\ntarget-dir = "%s/target"\nrustflags = ["--cfg", "typstyle_verif"]\n' "$MH" > $MH/harness/.cargo/config.toml
 export CARGO_NET_OFFLINE=true
